@@ -12,7 +12,7 @@ open Gallia
 
 structure St where
   session : Nat := 1
-  sec : Option Nat := none
+  sec : Option Int := none          -- `security_access_level` (`type - 1`, so -1 after a `67 00` reply)
 deriving DecidableEq, Repr
 
 def St.default : St := {}
@@ -25,20 +25,25 @@ inductive Kind
   | other
 deriving DecidableEq, Repr
 
+/-- the class `UDSResponse.parse_dynamic` gives the reply, as far as `update_state` can tell.  The length and
+    sub-function gates of the four classes are part of it: a reply that fails them does not parse, the client keeps it as a
+    raw response (`MalformedResponse`), the replaying server falls back to a raw response too - and neither changes
+    its state.  (`Proofs/Lemmas/ReplayServe.lean` proves that this is what C02's decoder `decodeResp` says, and
+    `Proofs/Lemmas/ReplayRec.lean` that it is C11's `DbLog.classify`.) -/
 def classify (resp : Bytes) : Kind :=
   match resp with
-  | 0x50 :: t :: _ => .dsc t.toNat
-  | 0x67 :: t :: _ => .sa t.toNat
-  | [0x51, _] => .reset
-  | [0x51, _, _] => .reset
-  | 0x62 :: 0xF1 :: 0x86 :: d => .f186 (fromBE d)
+  | 0x50 :: t :: _ => if t.toNat ≤ 0x7F then .dsc t.toNat else .other
+  | 0x67 :: t :: _ => if t.toNat ≤ 0x7F then .sa t.toNat else .other
+  | [0x51, t] => if t.toNat ≤ 0x7F then .reset else .other
+  | [0x51, t, _] => if t.toNat ≤ 0x7F then .reset else .other
+  | 0x62 :: 0xF1 :: 0x86 :: d :: ds => .f186 (fromBE (d :: ds))
   | _ => .other
 
 /-- `UDSServer.update_state` (the replaying side) -/
 def serverUpdate (st : St) (resp : Bytes) : St :=
   match classify resp with
   | .dsc t => { session := t, sec := none }
-  | .sa t => if t % 2 = 0 then { st with sec := some (t - 1) } else st
+  | .sa t => if t % 2 = 0 then { st with sec := some ((t : Int) - 1) } else st
   | .reset => St.default
   | _ => st
 
@@ -56,7 +61,7 @@ def clientUpdate (st : St) (resp : Option Bytes) : St :=
     match classify r with
     | .dsc t => { session := t, sec := none }
     | .f186 s => if st.session ≠ s then { session := s, sec := none } else st
-    | .sa t => if t % 2 = 0 then { st with sec := some (t - 1) } else st
+    | .sa t => if t % 2 = 0 then { st with sec := some ((t : Int) - 1) } else st
     | .reset => St.default
     | .other => st
 
@@ -96,7 +101,7 @@ def minRow (p : Row → Bool) : List Row → Option Row
 structure Srv where
   st : St := {}
   last : Option Nat := none    -- `last_response` (-1 = none)
-deriving Repr
+deriving DecidableEq, Repr
 
 def matchesQ (st : St) (req : Bytes) (r : Row) : Bool :=
   r.selected && r.state == st && r.req == req
@@ -186,16 +191,65 @@ def selects (sel : Selector) (ri : RunInfo) : Bool :=
     | none => true
     | some ps => ps.all (propMatches ri))
 
+/-! ### the `state` column: JSON of `ECUState.__dict__`, matched key by key
+
+`ECU._request` logs `json.dumps(self.state.__dict__)`: for the plain `ECUState` the keys `session` and
+`security_access_level`, for an OEM subclass whatever further attributes it keeps.  `DBUDSServer.respond_after_default`
+does not compare the column as a whole: for every key of *its own* `self.state.__dict__` it adds
+`json_extract(r.state, '$.key') = ?` - or `... IS NULL` when its value is `None`.  So a key only the row has is ignored, and
+a key only the server has matches exactly when the server's value is `None`. -/
+
+/-- top-level keys of a JSON object, in document order (`json.dumps` of a dict never repeats a key) -/
+abbrev JObj := List (String × JVal)
+
+/-- `json_extract(obj, '$.k')`: SQL NULL when the key is absent or holds JSON null -/
+def jget (o : JObj) (k : String) : JVal :=
+  match o.find? (fun kv => kv.1 == k) with
+  | some kv => kv.2
+  | none => .null
+
+/-- one `json_extract(r.state, '$.k') = ?` / `IS NULL` conjunct -/
+def keyMatches (row : JObj) (kv : String × JVal) : Bool :=
+  match kv.2 with
+  | .null => jget row kv.1 == .null
+  | v => jget row kv.1 == v
+
+/-- the state part of the WHERE clause: one conjunct per key of the *server's* state -/
+def stateMatch (srv row : JObj) : Bool := srv.all (keyMatches row)
+
+/-- `ECUState().__dict__` (key order as the attributes are assigned in `__init__`; regenerated: `Gen.C12Server.stateKeys`) -/
+def St.toJson (st : St) : JObj :=
+  [("session", .num st.session),
+   ("security_access_level", match st.sec with | none => .null | some l => .num l)]
+
+/-- the `ECUState` a logged state object stands for, as far as a server in a plain `ECUState` can tell: `session` must be a
+    non-negative integer, `security_access_level` an integer, null or absent; further keys do not matter -/
+def decodeSt (row : JObj) : Option St :=
+  match jget row "session" with
+  | .num n =>
+    if 0 ≤ n then
+      match jget row "security_access_level" with
+      | .null => some ⟨n.toNat, none⟩
+      | .num l => some ⟨n.toNat, some l⟩
+      | _ => none
+    else none
+  | _ => none
+
 /-- a `scan_result` row together with its run -/
 structure DbRow where
   id : Nat
   run : RunInfo
-  state : St
+  state : JObj             -- top-level keys of the `state` column
   req : Bytes
   resp : Option Bytes
-deriving Repr
+deriving DecidableEq, Repr
 
-def DbRow.view (sel : Selector) (r : DbRow) : Row := ⟨r.id, selects sel r.run, r.state, r.req, r.resp⟩
+/-- the row as a server in a plain `ECUState` sees it (`state_match_keywise`: matching key by key against the server's
+    two keys is equality with the decoded state; a state object that does not decode matches no server state) -/
+def DbRow.view (sel : Selector) (r : DbRow) : Row :=
+  match decodeSt r.state with
+  | some st => ⟨r.id, selects sel r.run, st, r.req, r.resp⟩
+  | none => ⟨r.id, false, St.default, r.req, r.resp⟩
 
 /-- the replaying server started with selector `sel` on database `db` -/
 def replayDb (sel : Selector) (db : List DbRow) (reqs : List Bytes) : List (Option Bytes) :=
@@ -204,7 +258,13 @@ def replayDb (sel : Selector) (db : List DbRow) (reqs : List Bytes) : List (Opti
 /-- what the recorder writes for run `ri` -/
 def recordDb (ri : RunInfo) (id0 : Nat) (st : St) : List Exch → List DbRow
   | [] => []
-  | x :: xs => ⟨id0, ri, st, x.req, x.resp⟩ :: recordDb ri (id0 + 1) (clientUpdate st x.resp) xs
+  | x :: xs => ⟨id0, ri, st.toJson, x.req, x.resp⟩ :: recordDb ri (id0 + 1) (clientUpdate st x.resp) xs
+
+/-- what an OEM subclass of `ECU` writes whose state class keeps further attributes: every exchange comes with the extra
+    keys logged with it (they follow the two standard keys: `super().__init__()` runs first) -/
+def recordDbX (ri : RunInfo) (id0 : Nat) (st : St) : List (Exch × JObj) → List DbRow
+  | [] => []
+  | x :: xs => ⟨id0, ri, st.toJson ++ x.2, x.1.req, x.1.resp⟩ :: recordDbX ri (id0 + 1) (clientUpdate st x.1.resp) xs
 
 /-- final client state after a history -/
 def clientFinal : St → List Exch → St
